@@ -21,7 +21,7 @@ TECHNIQUE = ("runtime monitoring of operation histories: recording wrapper on th
 RULE = ("seeded histories (<= 12 operations after the first sow) over {re-sow same shape, grow i, Crop.grow(subset), "
         "grow_missing, grow with a function told to fail on a chosen setting (raising ProbeFailure/KeyError/ZeroDivisionError/StopIteration/StopAsyncIteration), grow returning an unwritable result, grows as MPI rank 0, more batches requested than settings, reloads by the same constructor call, delete result i, corrupt/truncate/"
         "wrong-length result + check_bad, reload Crop, query} on crops of 1-8 batches (1-20 settings, grids and case "
-        "lists, size/count batching, shuffle); pooled grows around a re-sow that replaces the function; crops whose function is not saved (save_fn=False) queried through handles without it; every post-operation state is one judged observation; distinct by "
+        "lists, size/count batching, shuffle); pooled grows around a re-sow that replaces the function; crops whose function is not saved (save_fn=False) queried through handles without it; crops of 10-14 batches; subsets given as generators / numpy arrays, a returned grow must have grown what it was asked for; check_bad must return ints; every post-operation state is one judged observation; distinct by "
         "(shape, history prefix); non-trivial when the crop has >= 2 batches")
 ASSUMPTIONS = [
     "progress is judged from the first sow on (before it the crop reports -1 / not prepared)",
